@@ -123,6 +123,9 @@ def _fake_socket_module(env):
     return m
 
 
+HOOKS = {'start': None, 'loop_head': None}
+
+
 class Patches(object):
     """Run-time seams (DESIGN.md 2.7).  Applied once per process; idempotent."""
     applied = False
@@ -142,13 +145,16 @@ class Patches(object):
             raise HarnessError('DULServiceProvider.is_killed is already a class attribute: harness assumption broken')
 
         def start(self):
-            pass
+            if HOOKS['start'] is not None:      # engine E3 registers the provider thread with its scheduler
+                HOOKS['start'](self)
 
         def get_killed(self):
             h = self.__dict__.get('_vp')
-            if h is None:
-                return self.__dict__.get('_vp_flag', False)
-            return h.loop_head(self)
+            if h is not None:
+                return h.loop_head(self)
+            if HOOKS['loop_head'] is not None:
+                return HOOKS['loop_head'](self)
+            return self.__dict__.get('_vp_flag', False)
 
         def set_killed(self, value):
             self.__dict__['_vp_flag'] = value
